@@ -261,7 +261,57 @@ def store_action(fn, ev, n, cont):
     return None
 
 
-def walk(fn, model, start=None, stop=None, follow_loops=False, max_steps=5000, state=None):
+def is_throwing_helper(cf):
+    """a function the walker looks into instead of treating its call as an atom: it has explicit
+    throws and is not part of the public interface (file-local, or a non-public method), so its
+    guards are the caller's guards written elsewhere"""
+    if cf is None or cf.implicit or cf.body is None or cf.kind in ('ctor', 'dtor'):
+        return False
+    if not any(n['k'] == 'CXXThrowExpr' for n in cf.nodes):
+        return False
+    if cf.rec.get('internal') or '(anonymous namespace)' in cf.qname:
+        return True
+    return False
+
+
+def translate_model(fn, ev, n, cf, model):
+    """the caller's model in the callee's terms: atoms rooted at an actual argument / the object
+    become atoms rooted at argN / this; scalar arguments are evaluated"""
+    R = ev.R
+    m2 = {}
+    roots = []
+    obj = fn.call_obj(n)
+    if obj is not None:
+        roots.append((R.render(obj), 'this'))
+    for i, a in enumerate(fn.call_args(n)):
+        r = R.render(a)
+        r = re.sub(r'^\*\((.*)\)$', r'\1', r)
+        roots.append((r, 'arg%d' % i))
+        v = None
+        try:
+            v = ev.ev(a)
+        except OutOfRange:
+            v = None
+        if v is not None and i < len(cf.params) and not isinstance(v, str) and cf.params[i].get('tc') not in ('o', 'p'):
+            m2['arg%d' % i] = wrap(v, cf.params[i].get('tc'), cf.params[i].get('tw')) if not isinstance(v, float) else v
+        elif isinstance(v, str):
+            m2['arg%d' % i] = v
+    for k, v in model.items():
+        if k.startswith('#'):
+            m2[k] = v
+            continue
+        pre = ''
+        kk = k
+        for p_ in ('strempty:',):
+            if kk.startswith(p_):
+                pre, kk = p_, kk[len(p_):]
+        for r, t in roots:
+            if kk == r or kk.startswith(r + '.') or kk.startswith(r + '['):
+                m2[pre + t + kk[len(r):]] = v
+    return m2
+
+
+def walk(fn, model, start=None, stop=None, follow_loops=False, max_steps=5000, state=None, _depth=0):
     """follow the event graph from `start` (default ENTRY); every two-way branch is decided by
     evaluating its condition on the model.  Returns (events, end, undecided_conditions) where events
     is the list of node ids met (in order), end in {'NEXIT','XEXIT','throw:<type>@node','stop@node','loop'}"""
@@ -297,6 +347,19 @@ def walk(fn, model, start=None, stop=None, follow_loops=False, max_steps=5000, s
             out.append(nid)
             if n['k'] == 'CXXThrowExpr':
                 return out, 'throw:%s@%d' % (n.get('throw_t'), nid), undec
+            if n['k'] in ('CallExpr', 'CXXMemberCallExpr') and n.get('callee', {}).get('inrepo') and _depth < 3:
+                cf = fn.prog.funcs.get(n['callee']['usr'])
+                if is_throwing_helper(cf):
+                    try:
+                        m2 = translate_model(fn, ev, n, cf, model)
+                        _, end2, und2 = walk(cf, m2, follow_loops=follow_loops, max_steps=max_steps, _depth=_depth + 1)
+                    except OutOfRange:
+                        raise
+                    if end2.startswith('throw:'):
+                        return out, 'throw:%s@%d' % (end2[6:].split('@')[0], nid), undec
+                    if end2.startswith('undecided') or end2 == 'loop':
+                        undec.append((nid, {'helper %s' % cf.name: 'o'}))
+                        return out, 'undecided@%d' % nid, undec
             if state is not None and state.get('track') and n['k'] in ('CXXMemberCallExpr', 'CXXOperatorCallExpr'):
                 act = store_action(fn, ev, n, state['track'])
                 if act is not None:
